@@ -133,7 +133,7 @@ def fix_sched(scn):
 
 def build(scn):
     """run the schedule on the real indicator; returns (indicator | None, exception | None)"""
-    with cm.aware(scn.get("tzoff")):
+    with cm.aware(scn.get("tzoff")), cm.numpy_numbers(scn.get("numpy")):
         return _build(scn)
 
 
@@ -169,6 +169,13 @@ def _bad_value(v):
         return None
     if isinstance(v, (int, float)):
         return None if math.isfinite(v) else "nonfinite"
+    if type(v).__module__ == "numpy":   # numpy inputs give numpy results: numpy.bool_ is a bool, numpy numbers are numbers
+        import numpy as np
+
+        if isinstance(v, np.bool_):
+            return None
+        if isinstance(v, np.number):
+            return None if math.isfinite(float(v)) else "nonfinite"
     return "type"
 
 
@@ -254,6 +261,8 @@ def case(rng, idx, params):
         (init, chunks), shape = (len(stream), []), "batch"
     scn = {"prop": "C09", "kind": kind, "kwargs": kw, "tf": tf, "fill": fill, "family": family, "stream": stream, "init": init, "chunks": chunks,
            "bare_single": rng.random() < 0.5}
+    if rng.random() < 0.1 and cm.have_numpy():
+        scn["numpy"] = True   # prices and volumes as numpy.float64
     if rng.random() < 0.1 and stream and all(r[0] is not None for r in stream):
         scn["tzoff"] = rng.choice([0, 330, 345, 60, -300, 765])   # timezone-aware stamps (what ISO strings with an offset parse to)
     viol, info = check(scn)
